@@ -258,12 +258,17 @@ def leap_direction_rule(ctx, chk, rule):
                file=h.file, function=h.qual, line=h.node.lineno)
     g = ix.func("dateparser.utils:_get_leap_year")
     yr, fut = g.params()[:2]
-    steps = [n for n in iter_own_nodes(g.node) if isinstance(n, ast.Assign) and isinstance(n.value, ast.IfExp)]
+    # the step chosen by the flag: `step = 1 if future else -1`, or the same as a two-armed if statement
+    cands = [(n.value.test, n.value.body, n.value.orelse, n.targets[0]) for n in iter_own_nodes(g.node)
+             if isinstance(n, ast.Assign) and isinstance(n.value, ast.IfExp)]
+    for n in iter_own_nodes(g.node):
+        if isinstance(n, ast.If) and len(n.body) == 1 and len(n.orelse) == 1 and all(
+                isinstance(x, ast.Assign) and len(x.targets) == 1 and isinstance(x.targets[0], ast.Name) for x in (n.body[0], n.orelse[0])) \
+                and n.body[0].targets[0].id == n.orelse[0].targets[0].id:
+            cands.append((n.test, n.body[0].value, n.orelse[0].value, n.body[0].targets[0]))
     ok_step = False
     stepv = None
-    for st in steps:
-        e = st.value
-        t, a, b = e.test, e.body, e.orelse
+    for t, a, b, tg_ in cands:
         while isinstance(t, ast.UnaryOp) and isinstance(t.op, ast.Not):
             t, a, b = t.operand, b, a
         def val(x):
@@ -271,7 +276,7 @@ def leap_direction_rule(ctx, chk, rule):
                 return -x.operand.value
             return x.value if isinstance(x, ast.Constant) else None
         if ast.unparse(t) == fut and val(a) == 1 and val(b) == -1:
-            ok_step, stepv = True, ast.unparse(st.targets[0])
+            ok_step, stepv = True, ast.unparse(tg_)
     chk.ob(rule, "_get_leap_year steps +1 year when future, -1 otherwise", ok_step, "", key={"function": g.key, "construct": "step sign"},
            file=g.file, function=g.qual, line=g.node.lineno)
     t_ = " ".join(ast.unparse(g.node).split())
